@@ -44,6 +44,9 @@ def materialise(desc):
     elif fam == 'chain':
         sc = scenes.close_chain_scene(rng, order=k.get('order'), nce=k.get('nce'))
         prm = {'call': base_prms(rng, sc, k), 'glob': {}}
+    elif fam == 'tri_plus_two':
+        sc = scenes.tri_plus_two_heights_scene(rng)
+        prm = {'call': {'MIN_SEP_VALS': [40.0, 40.0], 'LAYERING_PRMS': {'min_okta_to_split': 0}}, 'glob': {}}
     elif fam == 'manysplit':
         sc = scenes.many_split_scene(rng)
         prm = {'call': copy.deepcopy(scenes.PRMS_MANY_SPLIT), 'glob': {}}
